@@ -304,12 +304,21 @@ def r3_attributes_owned(ck: Check, repo: Repo, fn: Fn) -> None:
                 if eq:
                     why = f"value already equal ({eq})"
                 if apol:
+                    # a disjunction holds if ANY alternative holds: the skip is accepted only if EVERY alternative is an accepted reason
+                    reasons = []
                     for d in disjuncts(atom):
                         if isinstance(d, ast.Call) and call_name(d) == "callable":
-                            why = "callable attribute (method / partial)"
-                        if isinstance(d, ast.Call) and call_name(d) == "isinstance" and len(d.args) == 2 and \
+                            reasons.append("callable attribute (method / partial)")
+                        elif isinstance(d, ast.Call) and call_name(d) == "isinstance" and len(d.args) == 2 and \
                                 dotted(d.args[1]).split(".")[-1] in ("EvolvableAlgorithm",):
-                            why = "nested algorithm (cloned by the wrapper)"
+                            reasons.append("nested algorithm (cloned by the wrapper)")
+                        else:
+                            reasons.append(None)
+                    if reasons and all(r is not None for r in reasons):
+                        why = " / ".join(sorted(set(reasons)))
+                    elif any(r is not None for r in reasons):
+                        why = None
+                        break
         ck.ob("C01.3", fn, loop, why is not None,
               f"path [{gtxt}] leaves the clone's attribute untouched only for an accepted reason",
               detail=why or "no store on this path and no accepted skip guard: the attribute of the clone keeps whatever "
@@ -708,7 +717,7 @@ VARIANTS = [
     ("ndarray-no-copy", _B, "                        setattr(\n                            clone, attribute, copy.deepcopy(getattr(agent, attribute))\n                        )\n                elif isinstance(attr, list)",
      "                        setattr(\n                            clone, attribute, getattr(agent, attribute)\n                        )\n                elif isinstance(attr, list)", "fire", "C01.3"),
     ("registry-not-forced", _B, "elif attr != clone_attr or isinstance(attr, MutationRegistry):", "elif attr != clone_attr:", "fire", "C01.4"),
-    ("skip-dicts", _B, "if callable(attr) or isinstance(attr, EvolvableAlgorithm):", "if callable(attr) or isinstance(attr, (EvolvableAlgorithm, dict)):", "silent", None),
+    ("skip-dicts", _B, "if callable(attr) or isinstance(attr, EvolvableAlgorithm):", "if callable(attr) or isinstance(attr, (EvolvableAlgorithm, dict)):", "fire", "C01.3"),
     ("skip-lists-early", _B, "                elif isinstance(attr, list) or isinstance(clone_attr, list):\n",
      "                elif isinstance(attr, list) and len(attr) == 0:\n                    pass\n                elif isinstance(attr, list) or isinstance(clone_attr, list):\n", "fire", "C01.3"),
     ("module-not-cloned", _B, "                cloned_modules[attr] = obj.clone()\n", "                cloned_modules[attr] = obj\n", "fire", "C01.2"),
